@@ -569,6 +569,19 @@ def construct_case(inp):
     tr.hadamard_gate(c, n - 1)
     tr.x_gate(st, 0)
     tr.hadamard_gate(st, 0)
+    st.phase[:] = 1 - st.phase
+    # measurements / resets write sign bits IN PLACE (gates rebind the vectors), so they are applied first on fresh copies:
+    # a copy that shares its table or sign vectors with the original would show here
+    for q in range(n):
+        for maker in (lambda: CliffordTableau(a), lambda: a.copy()):
+            d = maker()
+            sfc.z_measurement_gate(d, q, 1)
+            d = maker()
+            sfc.reset_z(d, q, 1, 1)
+            d = maker()
+            d.phase[:] = 1 - d.phase
+            d.iphase[:] = 1
+            d.table[:] = 1 - d.table
     s, _ = conforms(a, [(None, m0)])
     if s or not np.array_equal(a.table, np.array(tab)) or not np.array_equal(a.phase, np.array(ph)):
         return "operations on CliffordTableau(T) / copy() / to_stabilizer() changed the original tableau"
@@ -590,6 +603,34 @@ def circuit_case(inp):
     except ValueError:
         return None
     return "run_circuit accepted the unknown gate name 'T'"
+
+
+@S.item("single_ops.n3_to_5_sampled", site=f"{CL}:z_measurement_gate",
+        bound="seeded random tableaux (random circuit + mixed presentation) with 3 <= n <= 5 x one operation of every kind "
+              "(each gate, measurement, the three resets, swap, insert, add, remove, partial trace, tensor, circuit) at random positions / modes",
+        clause="every single operation on more than two qubits (e.g. measurements whose outcome is a product of >= 3 generators)")
+def single_ops_case(inp):
+    n, seed = inp
+    rng = np.random.default_rng([seed, n, 3])
+    np.random.seed(seed % 2**32)
+    ref = R.RefTableau.random(n, rng)
+    tab, ph = ref.table().tolist(), ref.R.tolist()
+    m0 = start_sv(tab, ph)
+    q = lambda: int(rng.integers(0, n))  # noqa: E731
+    pair = lambda: [int(a) for a in rng.choice(n, size=2, replace=False)]  # noqa: E731
+    mode = lambda: MODES[int(rng.integers(0, 3))]  # noqa: E731
+    ops = [[g, q()] for g in GATE1] + [[g] + pair() for g in GATE2]
+    ops += [["SWAP"] + pair(), ["INS", int(rng.integers(0, n + 1))], ["ADD"], ["TENSOR", ["ket0", "ket1", "plus"][int(rng.integers(0, 3))], 1]]
+    for qq in range(n):
+        ops += [["M", qq, 0], ["M", qq, 1], ["M", qq, "probabilistic"], ["REM", qq, mode()]]
+    ops += [["RESET", b, q(), int(rng.integers(0, 2)), mode()] for b in "zxy"]
+    keep = sorted(int(a) for a in rng.choice(n, size=int(rng.integers(1, n)), replace=False))
+    ops += [["PT", keep, mode()]]
+    for op in ops:
+        s = run_ops(mk(tab, ph), m0, [op])
+        if s:
+            return s
+    return None
 
 
 # ------------------------------------------------------------------------------------------------------------
@@ -904,6 +945,8 @@ def run(tier, seed):
             parts.append([t.table().tolist(), t.R.tolist()])
         tens.append(parts)
     S.map("tensor.product", tens, nontrivial=lambda x: any(any(p[1]) for p in x))
+
+    S.map("single_ops.n3_to_5_sampled", [[int(rng.integers(3, 6)), int(rng.integers(0, 2**31))] for _ in range(6000 if thorough else 800)])
 
     S.map("create_states.named", [[k, n] for k in NAMED for n in [1, 2, 3, 4, 5, 6, 10, 50, 200]])
 
